@@ -225,9 +225,9 @@ impl Sim {
             Want::Deser
         } else {
             let id = CmdId::from_bytes(bytes[..32].try_into().expect("32"));
-            match postcard::from_bytes::<Wire>(&bytes[32..]) {
-                Err(_) => Want::Unparsable,
-                Ok(w) => {
+            match crate::policy::parse_wire(&bytes[32..]) {
+                None => Want::Unparsable,
+                Some(w) => {
                     let before = st.clone();
                     let ok = eval_op(id.as_array(), &w.op, &mut st, &mut |x| effs.push(x));
                     exp.push(ExpEval { id, place: Place::OffGraph, before, accepted: ok });
